@@ -1,5 +1,6 @@
 import PraatModel.Proto
 import PraatModel.Crop
+import PraatModel.Ops
 
 /-! # line interpreter: one operation per line, one canonical output line -/
 
@@ -20,7 +21,101 @@ def runOp (op : String) : P String := do
   | "mkptier" =>
     let name ← P.str; let ps ← P.ptList (α := α); let lo ← P.opt P.time; let hi ← P.opt P.time
     pure (Out.exc Out.ptier (mkPTier name ps lo hi))
+  | "ierase" =>
+    let t ← P.itier (α := α); let a ← P.time; let b ← P.time; let m ← P.eraseMode; let sh ← P.bool
+    pure (Out.exc Out.itier (t.eraseRegion a b m sh))
+  | "perase" =>
+    let t ← P.ptier (α := α); let a ← P.time; let b ← P.time; let sh ← P.bool
+    pure (Out.exc Out.ptier (t.eraseRegion a b sh))
+  | "ispace" =>
+    let t ← P.itier (α := α); let s ← P.time; let d ← P.time; let m ← P.spaceMode
+    pure (Out.exc Out.itier (t.insertSpace s d m))
+  | "pspace" =>
+    let t ← P.ptier (α := α); let s ← P.time; let d ← P.time
+    pure (Out.exc Out.ptier (t.insertSpace s d))
+  | "ispace_erase" =>
+    let t ← P.itier (α := α); let s ← P.time; let d ← P.time; let m ← P.spaceMode
+    pure (Out.exc Out.itier (do let u ← t.insertSpace s d m; u.eraseRegion s (s + d) .truncate true))
+  | "ishift" =>
+    let t ← P.itier (α := α); let o ← P.time; let r ← P.report
+    pure (Out.exc Out.itier (t.editTimestamps o r))
+  | "pshift" =>
+    let t ← P.ptier (α := α); let o ← P.time; let r ← P.report
+    pure (Out.exc Out.ptier (t.editTimestamps o r))
+  | "iappend" =>
+    let t ← P.itier (α := α); let u ← P.itier
+    pure (Out.exc Out.itier (t.appendTier u))
+  | "pappend" =>
+    let t ← P.ptier (α := α); let u ← P.ptier
+    pure (Out.exc Out.ptier (t.appendTier u))
+  | "iunion" =>
+    let t ← P.itier (α := α); let u ← P.itier
+    pure (Out.exc Out.itier (t.union u))
+  | "punion" =>
+    let t ← P.ptier (α := α); let u ← P.ptier
+    pure (Out.exc Out.ptier (t.union u))
+  | "idiff" =>
+    let t ← P.itier (α := α); let u ← P.itier
+    pure (Out.exc Out.itier (t.difference u))
+  | "iinter" =>
+    let t ← P.itier (α := α); let u ← P.itier
+    pure (Out.exc Out.itier (t.intersection u))
+  | "imergelabels" =>
+    let t ← P.itier (α := α); let u ← P.itier
+    pure (Out.exc Out.itier (t.mergeLabels u))
+  | "iinsert" =>
+    let t ← P.itier (α := α); let x ← P.iv; let m ← P.insMode
+    pure (Out.exc Out.itier (t.insertEntry x m))
+  | "pinsert" =>
+    let t ← P.ptier (α := α); let x ← P.pt; let m ← P.insMode
+    pure (Out.exc Out.ptier (t.insertEntry x m))
+  | "idelete" =>
+    let t ← P.itier (α := α); let x ← P.iv
+    pure (Out.exc Out.itier (t.deleteEntry x))
+  | "pdelete" =>
+    let t ← P.ptier (α := α); let x ← P.pt
+    pure (Out.exc Out.ptier (t.deleteEntry x))
+  | "idejitter" =>
+    let t ← P.itier (α := α); let refs ← refTimes; let md ← P.time
+    pure (Out.exc Out.itier (t.dejitter refs md))
+  | "pdejitter" =>
+    let t ← P.ptier (α := α); let refs ← refTimes; let md ← P.time
+    pure (Out.exc Out.ptier (t.dejitter refs md))
+  | "imorph" =>
+    let t ← P.itier (α := α); let u ← P.itier; let f ← P.opt (do let n ← P.nat; P.many n P.str)
+    let sel : String → Bool := match f with | none => fun _ => true | some ls => fun l => ls.contains l
+    pure (Out.exc Out.itier (t.morph u sel))
+  | "inew" =>
+    let t ← P.itier (α := α)
+    pure (Out.exc Out.itier t.new)
+  | "pnew" =>
+    let t ← P.ptier (α := α)
+    pure (Out.exc Out.ptier t.new)
+  | "ivalidate" =>
+    let t ← P.itier (α := α)
+    pure ("ok " ++ Out.bool t.validate)
+  | "pvalidate" =>
+    let t ← P.ptier (α := α)
+    pure ("ok " ++ Out.bool t.validate)
+  | "itimestamps" =>
+    let t ← P.itier (α := α)
+    pure ("ok " ++ Out.join (t.timestamps.map Out.time))
+  | "ptimestamps" =>
+    let t ← P.ptier (α := α)
+    pure ("ok " ++ Out.join (t.timestamps.map Out.time))
+  | "nonentries" =>
+    let t ← P.itier (α := α)
+    pure (Out.exc Out.ivList t.getNonEntries)
+  | "find" =>
+    let n ← P.nat; let ls ← P.many n P.str; let q ← P.str; let sub ← P.bool
+    pure ("ok " ++ Out.join ((findLabels ls q sub).map toString))
   | _ => throw s!"unknown op {op}"
+where
+  /-- the reference tier of dejitter: either tier kind, reduced to its timestamps -/
+  refTimes : P (List α) := do
+    match (← get) with
+    | "I" :: _ => do let r ← P.itier (α := α); pure r.timestamps
+    | _ => do let r ← P.ptier (α := α); pure r.timestamps
 
 def runLine (line : String) : String :=
   match (line.splitOn " ").filter (· ≠ "") with
